@@ -1,6 +1,7 @@
 import Driver.Proto
 import Driver.History
 import Driver.Algo
+import Driver.Tok
 /-
 fzfmodel: reads protocol lines `<area> <op> <args>... => <impl answer>` on stdin and
 prints, per line, `EQ|NE PASS|FAIL|NA | model=<answer> | <reason>`.
@@ -11,6 +12,7 @@ def dispatch (ctx : Driver.Algo.Ctx) (area op : String) (args impl : List String
   match area with
   | "hist" => Driver.History.run op args impl
   | "algo" => Driver.Algo.run ctx op args impl
+  | "tok" => Driver.Tok.run op args impl
   | _ => { model := "bad-area" }
 
 def processLine (ctx : Driver.Algo.Ctx) (line : String) : String :=
